@@ -109,6 +109,11 @@ func (k *Finding) matches(prop, sig string) bool {
 	return k.Sig == sig
 }
 
+// budgetFor is the CPU time one worker may use before it stops expanding
+// (Ctx.Expired). The tiers are sized by their bounds, not by this number: the
+// heaviest quick shard needs about 40 s of CPU time and the heaviest thorough
+// shard about 8 min on the machine the checks were written on, so a run is cut
+// short only on a much slower processor, never because the machine is busy.
 func budgetFor(tier string) time.Duration {
 	if s := os.Getenv("VERIF_BUDGET_S"); s != "" {
 		if n, err := strconv.Atoi(s); err == nil {
@@ -118,7 +123,7 @@ func budgetFor(tier string) time.Duration {
 	if tier == "thorough" {
 		return 12 * time.Minute
 	}
-	return 50 * time.Second
+	return 5 * time.Minute
 }
 
 func seed() int64 {
@@ -164,6 +169,7 @@ type workerResult struct {
 	stderr   string
 	lastCase string
 	hung     bool
+	cpu      time.Duration // user + system time of the worker process, from wait4
 }
 
 func runWorker(self, id, tier string, shard, n int, journal bool) workerResult {
@@ -252,6 +258,9 @@ func runWorker(self, id, tier string, shard, n int, journal bool) workerResult {
 	}
 	err := cmd.Wait()
 	close(stop)
+	if ps := cmd.ProcessState; ps != nil {
+		res.cpu = ps.UserTime() + ps.SystemTime()
+	}
 	if err != nil || res.rep == nil {
 		res.crashed = true
 		res.stderr += errb.String()
@@ -357,7 +366,13 @@ func ParentMain(id, tier string) int {
 	wg.Wait()
 
 	merged := &Report{Counters: map[string]int64{}, Fails: map[string]*Failure{}}
+	var cpu cpuUse
+	cpu.workers, cpu.budget = n, budgetFor(tier)
 	for i, r := range results {
+		cpu.total += r.cpu
+		if r.cpu > cpu.max {
+			cpu.max = r.cpu
+		}
 		if r.crashed {
 			sig := Sig("worker-fault", faultKind(r.stderr, r.hung))
 			raw, _ := json.Marshal(map[string]any{"kind": "journal", "shard": i, "nshards": n, "last_case": r.lastCase})
@@ -446,7 +461,7 @@ func ParentMain(id, tier string) int {
 		path := writeReplay(ck, id, tier, f)
 		fmt.Printf("VIOLATION property=%s replay=%s sig=%s count=%d\n", id, path, s, f.Count)
 	}
-	writeEvidence(ck, id, tier, merged, unlisted, nKnown, time.Since(start))
+	writeEvidence(ck, id, tier, merged, unlisted, nKnown, time.Since(start), cpu)
 	for _, h := range merged.HarnessE {
 		fmt.Fprintln(os.Stderr, "HARNESS-ERROR:", h)
 	}
@@ -515,7 +530,14 @@ func writeReplay(ck *Check, id, tier string, f *Failure) string {
 	return path
 }
 
-func writeEvidence(ck *Check, id, tier string, m *Report, unlisted []string, nKnown int, wall time.Duration) {
+// cpuUse says how far the workers of a run were from their CPU-time budget.
+type cpuUse struct {
+	workers    int
+	budget     time.Duration
+	max, total time.Duration
+}
+
+func writeEvidence(ck *Check, id, tier string, m *Report, unlisted []string, nKnown int, wall time.Duration, cpu cpuUse) {
 	cov := map[string]any{}
 	for k, v := range m.Counters {
 		cov[k] = v
@@ -537,6 +559,13 @@ func writeEvidence(ck *Check, id, tier string, m *Report, unlisted []string, nKn
 	}
 	if ck.Bound != nil {
 		cov["bound"] = ck.Bound(tier)
+	}
+	cov["worker_cpu_time"] = map[string]any{
+		"workers":             cpu.workers,
+		"budget_per_worker_s": int(cpu.budget.Seconds()),
+		"max_used_s":          float64(int(cpu.max.Seconds()*10)) / 10,
+		"total_used_s":        float64(int(cpu.total.Seconds()*10)) / 10,
+		"note":                "a worker stops expanding (exhaustive:false) when it has itself used its budget of CPU time; time spent waiting for a busy machine does not count",
 	}
 	if len(m.Notes) > 0 {
 		cov["notes"] = m.Notes
